@@ -157,10 +157,16 @@ func (a *errAnalysis) forwardsParam(g *ssa.Function, i int) bool {
 		if isNilConst(res[ei]) {
 			return
 		}
-		n++
 		if !fl.derived[res[ei]] {
+			// a collection of errors that is empty has nothing to forward: a return taken only
+			// where len(param) == 0 need not derive from it
+			if _, isSlice := g.Params[i].Type().Underlying().(*types.Slice); isSlice && underEmptyParam(g.Params[i], ret.Block()) {
+				return
+			}
 			all = false
+			return
 		}
+		n++
 	})
 	ok = all && n > 0
 	return ok
@@ -822,4 +828,46 @@ func checkCallsNotTolerant(w *World, r *Report) {
 		})
 	}
 	r.floor("returns in the FunctionNode arm of EvaluateExpression", n, 3)
+}
+
+// underEmptyParam: block b is reached only where len(p) == 0 was found true (or len(p) != 0 /
+// len(p) > 0 false).
+func underEmptyParam(p *ssa.Parameter, b *ssa.BasicBlock) bool {
+	for d := b.Idom(); d != nil; d = d.Idom() {
+		v, trueIdx, ok := ifCond(d)
+		if !ok {
+			continue
+		}
+		bo, ok := v.(*ssa.BinOp)
+		if !ok {
+			continue
+		}
+		c, isLen := bo.X.(*ssa.Call)
+		if !isLen {
+			continue
+		}
+		bi, isB := c.Call.Value.(*ssa.Builtin)
+		if !isB || bi.Name() != "len" || len(c.Call.Args) != 1 || unspill(c.Call.Args[0]) != ssa.Value(p) {
+			continue
+		}
+		k, isC := intConst(bo.Y)
+		if !isC || k != 0 {
+			continue
+		}
+		emptyIdx := -1
+		switch bo.Op {
+		case token.EQL, token.LEQ:
+			emptyIdx = trueIdx
+		case token.NEQ, token.GTR:
+			emptyIdx = 1 - trueIdx
+		}
+		if emptyIdx < 0 {
+			continue
+		}
+		e := d.Succs[emptyIdx]
+		if len(e.Preds) == 1 && (e == b || e.Dominates(b)) {
+			return true
+		}
+	}
+	return false
 }
